@@ -123,21 +123,48 @@ def s_process_node(ctx, opkind=0):
     okev = ctx.choose(2, "reference evaluation succeeds") == 0
     eval_kwargs = []
     I.models[cf._reference_evaluator.evaluate] = lambda interp, *a, **k: (evals.append(a) or eval_kwargs.append(k) or (NArr([1, 2], None) if okev else None))
-    I.models[cf.FoldConstantsPass.new_initializer] = lambda interp, s, n, arr: "new_initializer_value"
+    # the folded value is named like the node's output (new_initializer, real behaviour); the graph may ALREADY hold an initializer of
+    # that name: values of inlined If branches keep their names until NameFixPass runs at the end of the pass
+    new_init = SObj(ir.Value, "folded")
+    new_init.fields["name"] = "t"
+    I.models[cf.FoldConstantsPass.new_initializer] = lambda interp, s, n, arr: new_init
     I.models[cf.FoldConstantsPass.new_constant] = lambda interp, s, n, arr: None
-    g = SObj(object, "graph")
+    g = SObj(ir.Graph, "graph")
+    other = SObj(ir.Value, "other_initializer")
+    other.fields["name"] = "t"
+    name_taken = ctx.choose(2, "the graph already has an initializer named like the folded output") == 1
+    inits = {"t": other} if name_taken else {}
+    g.fields["initializers"] = inits
 
     def reg(v):
         raise AssertionError
-    I.models[reg] = lambda interp, v: None
+
+    def m_reg(interp, v):
+        # onnx_ir Graph.register_initializer: a DIFFERENT value registered under the same name is an error
+        nm = v.fields["name"]
+        if nm in inits and inits[nm] is not v:
+            raise PyRaise(ValueError(f"Initializer '{nm}' is already registered, but it is not the same object"))
+        inits[nm] = v
+    I.models[reg] = m_reg
     g.fields["register_initializer"] = reg
     node.fields["graph"] = g
     clo = I.closure_of(cf.FoldConstantsPass.process_node)
     try:
         r = I.run_closure(clo, [p, node, False], {})
     except PyRaise as e:
-        ctx.check("C04.folding.process_node.never_raises_without_partial_evaluators", False, "C04: 'return without raising'")
+        if name_taken and isinstance(e.exc, ValueError) and "already registered" in str(e.exc):
+            # its own obligation name, so that the recorded finding explains exactly this cause and nothing else
+            ctx.check("C04.folding.process_node.never_raises_when_an_initializer_is_already_named_like_the_folded_output", False, "C04: 'return without raising'")
+        else:
+            ctx.check("C04.folding.process_node.never_raises_without_partial_evaluators", False, "C04: 'return without raising'")
         return
+    if name_taken:
+        ctx.check("C04.folding.process_node.an_existing_initializer_of_the_same_name_is_kept", inits.get("t") is other and other.fields["name"] == "t",
+                  "C04: 'the result is a valid model' - no initializer is dropped or overwritten")
+    if new_init in inits.values():
+        ctx.cover("process_node.folded_value_registered")
+        ctx.check("C04.folding.process_node.the_folded_value_is_registered_under_its_own_name",
+                  [k for k, v in inits.items() if v is new_init] == [new_init.fields["name"]], "C04: 'the result is a valid model'")
     if alias is not None:
         ctx.check("C03.folding.process_node.input_substituted_by_equal_value", replaced_inputs == [(0, alias)], CL03)
     else:
